@@ -484,6 +484,8 @@ pub struct RunResult {
     pub end_ms: u64,
     /// the run was cut short because peers busy-polled each other for seconds of virtual time
     pub runaway: bool,
+    /// ended because no stream was touched for two minutes of virtual time
+    pub stalled: bool,
 }
 
 /// Run servers + client requests of a case to quiescence (or the horizon).
@@ -527,10 +529,29 @@ pub fn run_world(case: &E2eCase, horizon_s: u64) -> (RunResult, Vec<simrt::Panic
                 }
             };
             let runaway = crate::net::runaway_signal();
-            tokio::select! {
-                biased;
-                _ = tokio::time::timeout(Duration::from_secs(horizon_s), all) => {}
-                _ = runaway.notified() => {}
+            // A run ends when every request ended, or when nothing touched any stream for two minutes
+            // of virtual time (a hang), or - not a verdict - at the horizon / runaway cut-off. A slow
+            // network (one byte per operation, each delayed) is not a hang however long it takes.
+            let mut stalled = false;
+            {
+                tokio::pin!(all);
+                let started = tokio::time::Instant::now();
+                let mut last_ops = crate::net::ops();
+                let mut quiet = 0u32;
+                loop {
+                    tokio::select! {
+                        biased;
+                        _ = &mut all => break,
+                        _ = runaway.notified() => break,
+                        _ = tokio::time::sleep(Duration::from_secs(60)) => {
+                            let ops = crate::net::ops();
+                            if ops == last_ops { quiet += 1 } else { quiet = 0 }
+                            last_ops = ops;
+                            if quiet >= 2 { stalled = true; break }
+                            if started.elapsed() >= Duration::from_secs(horizon_s) { break }
+                        }
+                    }
+                }
             }
             let end_ms = net.now_ms();
             drop(svc);
@@ -545,7 +566,7 @@ pub fn run_world(case: &E2eCase, horizon_s: u64) -> (RunResult, Vec<simrt::Panic
             }
             let recs = recs.lock().clone();
             let log = std::mem::take(&mut *log.lock());
-            RunResult { recs, log, net, server_results, exec, end_ms, runaway: crate::net::is_runaway() }
+            RunResult { recs, log, net, server_results, exec, end_ms, runaway: crate::net::is_runaway(), stalled }
         })
     }));
     drop(local);
@@ -558,7 +579,7 @@ pub fn run_world(case: &E2eCase, horizon_s: u64) -> (RunResult, Vec<simrt::Panic
             let rt = simrt::runtime();
             let net = rt.block_on(async { Network::new(case.seed, NetPlan::plain()) });
             (
-                RunResult { recs: BTreeMap::new(), log: HandlerLog::default(), net, server_results: vec![], exec: SimExecutor::default(), end_ms: 0, runaway: false },
+                RunResult { recs: BTreeMap::new(), log: HandlerLog::default(), net, server_results: vec![], exec: SimExecutor::default(), end_ms: 0, runaway: false, stalled: false },
                 panics,
             )
         }
@@ -639,7 +660,7 @@ impl Scenario for E2eSim {
 
     fn execute(&self, case: &E2eCase) -> Outcome {
         let mut out = Outcome::default();
-        let (res, panics) = run_world(case, 3600);
+        let (res, panics) = run_world(case, 6 * 3600);
         panic_violations(&panics, &mut out);
         if std::env::var("VERIF_TRACE").is_ok() {
             for (id, r) in &res.recs {
@@ -767,11 +788,16 @@ impl Scenario for E2eSim {
                     }
                 }
                 ROutcome::Pending if res.runaway => out.count("probe.runaway_run_cut_short"),
-                ROutcome::Pending => viol(
+                ROutcome::Pending if res.stalled => viol(
                     "never_completes",
-                    json!({"kind": "pending_at_horizon"}),
-                    format!("request {} ({:?} to {}) neither completed nor failed within an hour of virtual time", p.id, p.ver, case.origins[p.origin].uri),
+                    json!({"kind": "pending_when_world_quiet"}),
+                    format!(
+                        "request {} ({:?} to {}) neither completed nor failed, and nothing has touched any connection for two minutes of virtual time",
+                        p.id, p.ver, case.origins[p.origin].uri
+                    ),
                 ),
+                // still making progress at the horizon (a very slow network): not judged
+                ROutcome::Pending => out.count("probe.horizon_reached_while_progressing"),
                 ROutcome::NotStarted => {}
             }
         }
